@@ -106,7 +106,7 @@ func (l *lengthFieldCodec) HandleRead(ctx netty.InboundContext, message netty.Me
 		// lengthFieldOffset + lengthFieldLength
 		bytes.NewReader(headerBuffer),
 		// frameLength - len(headerBuffer)
-		io.LimitReader(reader, frameLength-int64(lengthFieldEndOffset)),
+		utils.ExactReader(reader, frameLength-int64(lengthFieldEndOffset)),
 	)
 
 	// strip bytes
